@@ -113,11 +113,12 @@ Definition Encoder_reachable := Encoder_reachable_with Encoder_next_seq.
 Definition Encoder_reachable_legacy := Encoder_reachable_with Encoder_next_seq_legacy.
 
 (* ---- MessageHeader.validate_crc / unpack(validate_crc=True) ------------------------------------ *)
-Inductive Encoder_vc := VcOk | VcTooBig | VcMismatch.
+Inductive Encoder_vc := VcOk | VcTooBig | VcNotEnough | VcMismatch.
 
 Definition Encoder_validate_crc (h : header) (buffer : list N) (offset : N) : Encoder_vc :=
   if MAX_EXPECTED_SIZE_BYTES <? h_psize h then VcTooBig else
   let message_size_bytes := N.of_nat HEADER_SIZE + h_psize h in
+  if N.of_nat (length buffer) <? offset + message_size_bytes then VcNotEnough else
   let crc := Encoder_zlib_crc32 (Encoder_py_slice buffer (offset + N.of_nat PY_VALIDATE_CRC_START) (offset + message_size_bytes)) 0 in
   if crc =? h_crc h then VcOk else VcMismatch.
 
